@@ -90,6 +90,18 @@ def run():
     ok, _ = loader.validate_trace("chain", "dA_rA_lA_lA", [e for e in r["log"] if e[1] != "loaded.clear"], wd, "stale")
     if ok:
         failures.append("an event log with refresh but without the loaded.clear event was accepted")
+    # 7a. the TemplateHandler variant of the model: a real event log is accepted, the same log with one access attributed to the
+    # terminology tables instead of the handler's own is rejected
+    r = sched.run("chain", "dA_lA", [], wd, "template", "empty")
+    ok, _ = loader.validate_trace("chain", "dA_lA", r["log"], wd, "empty", "template")
+    if not ok:
+        failures.append("a real event log of the TemplateHandler was rejected by LoaderTrace")
+    log = [list(e) for e in r["log"]]
+    k = [i for i, e in enumerate(log) if e[1] == "tloaded.set"][0]
+    log[k][1] = "loaded.set"
+    ok, reached = loader.validate_trace("chain", "dA_lA", log, wd, "empty", "template")
+    if ok:
+        failures.append("a TemplateHandler log with an altered event was accepted")
     # 7b. spec -> code: a behaviour of the model replayed into the real loader is followed (no divergence); the same
     # record with one event of the model's sequence altered, or another outcome, is reported as a divergence
     def _div(recs, name):
@@ -135,5 +147,5 @@ def run():
         failures.append("a cardinality with min > max was not rejected (C09/CardNF)")
     for f in failures:
         print("SELFTEST-FAILURE: " + f)
-    print("selftest: %d corruption checks, %d failures" % (15, len(failures)))
+    print("selftest: %d corruption checks, %d failures" % (17, len(failures)))
     return 2 if failures else 0
